@@ -13,6 +13,7 @@
 import NdnVerif.C03.LemmasEnc
 import NdnVerif.C03.LemmasFinal
 import NdnVerif.C03.Examples
+import NdnVerif.C03.LemmasLiftRd
 namespace Ndn.C03
 
 /-! ### two-pass encoder: the length pass announces exactly what is written -/
@@ -59,6 +60,23 @@ theorem makeInterest_wellFormed (i : InterestIn) (sign H : Bytes → Bytes) (e :
     ReadWire, Read/ReadFull, Skip, Range, Delegate) returns what the BufferReader operation returns
     on the joined buffer, in the success AND the failure direction. -/
 theorem wireReader_refines_bufferReader : ReaderSpecs := readerSpecs
+
+/-- Parser-level refinement, for ALL input bytes (well-formed or not): decoding over a WireReader on
+    any segmentation (segments after the first non-empty) gives exactly the result of decoding the
+    joined bytes with a BufferReader — same value, same signed portion, same error/panic outcome. -/
+theorem segmented_decode_eq_contiguous (H : Bytes → Bytes) (segs : List Bytes)
+    (h : ∀ i, 0 < i → i < segs.length → segs.getD i [] ≠ []) :
+    readData (newWireReader segs) = readData (newBufferReader segs.flatten)
+    ∧ readInterest H (newWireReader segs) = readInterest H (newBufferReader segs.flatten)
+    ∧ readPacket H (newWireReader segs) = readPacket H (newBufferReader segs.flatten) :=
+  ⟨readData_anySegmentation segs h, readInterest_anySegmentation H segs h, readPacket_anySegmentation H segs h⟩
+
+/-- … and more generally for any two healthy readers over the same logical buffer and position
+    (including the sub-readers `Delegate` produces) -/
+theorem decode_depends_on_view_only (H : Bytes → Bytes) (r1 r2 : Rd) (h : Sim r1 r2) :
+    readData r1 = readData r2 ∧ readInterest H r1 = readInterest H r2 ∧ readPacket H r1 = readPacket H r2 :=
+  ⟨readData_sim readerSpecs readerSpecsX r1 r2 h, readInterest_sim readerSpecs readerSpecsX H r1 r2 h,
+   readPacket_sim readerSpecs readerSpecsX H r1 r2 h⟩
 
 /-- a WireReader freshly built over non-empty segments is healthy over the joined bytes -/
 theorem newWireReader_healthy (segs : List Bytes) (h : NonEmptySegs segs) :
@@ -130,6 +148,11 @@ example : ∃ e fn, makeInterest exInterest exSign32 exHash = .ok (e, fn) ∧ e.
 example : NoTrailingDigest exInterest := by intro h; cases h
 example : ∀ x, (exHash x).length = 32 := by intro x; simp [exHash]
 
+example : ∀ i, 0 < i → i < ([[1, 2], [3]] : List Bytes).length → ([[1, 2], [3]] : List Bytes).getD i [] ≠ [] := by
+  intro i h1 h2; have : i = 1 := by simp at h2; omega
+  subst this; simp
+example : Sim (newWireReader [[6], [0]]) (newBufferReader [6, 0]) :=
+  ⟨[6, 0], 0, at_newWireReader_ne [[6], [0]] (by intro s hs; simp at hs; rcases hs with h | h <;> simp [h]), at_newBufferReader _⟩
 example : NonEmptySegs [[1, 2], [3]] := by intro s hs; simp at hs; rcases hs with h | h <;> simp [h]
 example : At (newBufferReader [6, 0]) [6, 0] 0 := at_newBufferReader _
 example : NameValid exKey ∧ nameLen exKey < 2 ^ 62 := ⟨exKey_valid, by decide⟩
